@@ -19,6 +19,7 @@ import (
 type C14Op struct {
 	Kind      string `json:"kind"` // write | reply | pause
 	DNS       bool   `json:"dns"`
+	V6        bool   `json:"v6"` // the DNS server / target has an IPv6 address
 	Ms        int    `json:"ms"`
 	Fail      bool   `json:"fail"`       // write: the outbound send fails (unreachable network, port 0, ...)
 	FailRelay bool   `json:"fail_relay"` // reply: sending it on to the client fails (too large for the client's path, ...): that loses this reply, nothing else
@@ -36,7 +37,7 @@ func genC14Hist(t *rapid.T) C14Hist {
 	writes := 0
 	firstDNS := false
 	for i := 0; i < n; i++ {
-		op := C14Op{Kind: rapid.SampledFrom([]string{"write", "write", "write", "reply", "reply", "pause"}).Draw(t, "kind"), DNS: rapid.Bool().Draw(t, "dns")}
+		op := C14Op{Kind: rapid.SampledFrom([]string{"write", "write", "write", "reply", "reply", "pause"}).Draw(t, "kind"), DNS: rapid.Bool().Draw(t, "dns"), V6: rapid.IntRange(0, 2).Draw(t, "v6") == 0}
 		if op.Kind == "pause" {
 			op.Ms = rapid.SampledFrom([]int{0, 1, 5, 20}).Draw(t, "ms")
 		}
@@ -59,7 +60,7 @@ func genC14Hist(t *rapid.T) C14Hist {
 		if op.Kind == "reply" && i+1 < n && rapid.IntRange(0, 2).Draw(t, "hold") == 0 {
 			// the client's next datagram arrives while this reply is still on its way to the client
 			h.Ops[len(h.Ops)-1].Hold = true
-			w := C14Op{Kind: "write", DNS: rapid.Bool().Draw(t, "dns2"), Fail: rapid.IntRange(0, 5).Draw(t, "fail2") == 0}
+			w := C14Op{Kind: "write", DNS: rapid.Bool().Draw(t, "dns2"), V6: rapid.IntRange(0, 2).Draw(t, "v62") == 0, Fail: rapid.IntRange(0, 5).Draw(t, "fail2") == 0}
 			h.Ops = append(h.Ops, w)
 			writes++
 			i++
